@@ -25,7 +25,7 @@ JudgeC04(e) ==
 Init == l = 1 /\ bad = 0
 Next == /\ l <= Len(Trace)
         /\ LET e == Trace[l]  v == JudgeC04(e) IN
-           /\ (v # "ok" => PrintT(<<"VERDICT", e.id, "C04", v>>))
+           /\ (v # "ok" => PrintT("VERDICT " \o ToString(e.id) \o " " \o "C04" \o " " \o v))
            /\ bad' = bad + (IF v = "ok" THEN 0 ELSE 1)
         /\ l' = l + 1
 Spec == Init /\ [][Next]_vars
